@@ -12,6 +12,7 @@ pub mod c01;
 pub mod c05;
 pub mod c06;
 pub mod c07;
+pub mod c09;
 pub mod c12;
 pub mod c03;
 pub mod c04;
@@ -52,6 +53,9 @@ pub fn run(a: &Args) -> i32 {
         "c05" => c05::run(&env),
         "c06" => c06::run(&env),
         "c07" => c07::run(&env),
+        "c09" => c09::run(&env),
+        "c10" => c09::run_c10(&env),
+        "c11" => c09::run_c11(&env),
         "c12" => c12::run(&env),
         "c13" => c12::run_c13(&env),
         "c14" => c12::run_c14(&env),
@@ -81,7 +85,7 @@ fn probe(env: &Env) {
     let mut it = text.chars().peekable();
     while let Some(c) = it.next() {
         let o = if c == '\u{8}' || c == '⌫' { s.backspace(&mut t, false) }
-            else if c == '⏎' { s.commit(&mut t, 0) }
+            else if c == '⏎' { s.commit(&mut t, 0) } else if c == '¹' { s.commit(&mut t, 1) } else if c == '²' { s.commit(&mut t, 2) } else if c == '³' { s.commit(&mut t, 3) }
             else { match code_for_char(c) { Some(k) => s.key(&mut t, k, 0, 0), None => { println!("untypeable {:?}", c); continue; } } };
         println!("{:?} -> {}", c, render_obs(&o, s.imp.ongoing()));
     }
